@@ -250,6 +250,48 @@ class ExternalGetValues(Contract):
         I.ctx.require(z3.And(z3.BoolVal(exc_is(I, exc, "SigmaSecurityError")), z3.Not(t if not isinstance(t, bool) else z3.BoolVal(t)), z3.Not(env_allows("PYSIGMA_ALLOW_EXTERNAL_SOURCES")), z3.BoolVal(not me.ghost.get("fetched"))),
                       f"SigmaSecurityError exactly when not allowed, before any fetch (got {exc_name(exc)})", kind="SAFE")
 
+    def model_terms(self, inp):
+        return {"env": ENV("PYSIGMA_ALLOW_EXTERNAL_SOURCES"), "allow": inp["self"].fields["allow_external_sources"].t}
+
+    def candidates(self):
+        return ({"env": e, "allow": False} for e in ("0", "", "1", "true", "TRUE", "yes", "no", "off", "false", " 1", "2", "on", "none", "disabled"))
+
+    def replay(self, values):
+        """the real gate with the environment of the counter-model: is data fetched although nothing allows it?"""
+        import os
+        from sigma.processing.transformations.external import ExternalSourceBaseTransformation
+        env, allow = values.get("env"), bool(values.get("allow"))
+        fetched = []
+
+        class T(ExternalSourceBaseTransformation):
+            def _fetch_data(self):
+                fetched.append(1)
+                return "a"
+
+            def _parse_data(self, data):
+                return ["a"]
+        t = T(allow_external_sources=allow) if "allow_external_sources" in getattr(T, "__dataclass_fields__", {}) else T()
+        t.allow_external_sources = allow
+        old = os.environ.get("PYSIGMA_ALLOW_EXTERNAL_SOURCES")
+        try:
+            if env is None:
+                os.environ.pop("PYSIGMA_ALLOW_EXTERNAL_SOURCES", None)
+            else:
+                os.environ["PYSIGMA_ALLOW_EXTERNAL_SOURCES"] = env
+            try:
+                t._get_values()
+            except Exception:
+                pass
+        finally:
+            if old is None:
+                os.environ.pop("PYSIGMA_ALLOW_EXTERNAL_SOURCES", None)
+            else:
+                os.environ["PYSIGMA_ALLOW_EXTERNAL_SOURCES"] = old
+        permitted = allow or (env or "").lower() in ("1", "true")
+        if fetched and not permitted:
+            return f"with PYSIGMA_ALLOW_EXTERNAL_SOURCES={env!r} and allow_external_sources={allow} the external source is fetched"
+        return None
+
     def frame_ok(self, I, inp, obj, name):
         return obj is inp["self"] and name == "_values_cache"
 
